@@ -23,7 +23,7 @@ from vlib import graphs
 from vlib.cases import Case, Sub, evaluate as _evaluate
 from vlib import core
 
-RULE = ('graphs: all digraphs n<=3 x position patterns (distinct / two nodes coincide / all coincide) x directed in '
+RULE = ('graphs: all digraphs n<=3 x position patterns (distinct / two nodes coincide / all coincide / grid) x directed in '
         '{None,True,False} with hostile names, structured random graphs n<=10 (explicit zeros, unsorted indices, '
         'int/bool/float weights) with random option bundles (labels list/array/dict, scores, membership dense/sparse '
         'with pies, edge labels incl. labels on absent edges, label colours list/dict, node order, name position, '
@@ -717,7 +717,7 @@ def graph_options(rng, n, edges, rich=True):
     return o
 
 
-POSITION_PATTERNS = ['distinct', 'pair', 'all', 'line', 'random']
+POSITION_PATTERNS = ['distinct', 'pair', 'all', 'line', 'random', 'grid', 'column']
 
 
 def positions(rng, n, pattern):
@@ -727,6 +727,10 @@ def positions(rng, n, pattern):
         return [[2, 3] for _ in range(n)]
     if pattern == 'line':
         return [[i, 1] for i in range(n)]
+    if pattern == 'column':
+        return [[1, i] for i in range(n)]
+    if pattern == 'grid':      # nodes sharing an abscissa or an ordinate, all distinct
+        return [[i % 2, i // 2] for i in range(n)]
     if pattern == 'pair':
         p = [[i, (2 * i) % 3] for i in range(n)]
         if n >= 2:
@@ -744,7 +748,7 @@ def gen_graph_cases(ctx):
     for n in (1, 2, 3):
         gs = list(graphs.all_digraphs(n, loops=(n <= 2)))
         for es in gs:
-            for pattern in ('distinct', 'pair', 'all'):
+            for pattern in ('distinct', 'pair', 'all', 'grid'):
                 if n == 1 and pattern != 'distinct':
                     continue
                 for directed in (None, True, False):
